@@ -23,7 +23,8 @@
    sweeps the group of a reaped child; ControllableTask.Kill refuses without a client and sweeps the
    process group when it returns; the start-up poll of Launch notices a Kill (C17-e) and its
    wrong-start-state branch sweeps the group and waits (C17-k).  Left as they are (recorded): KILL
-   before the dial returned (C17-j), KILL of a running hook (C17-b), double START (C17-l).
+   before the dial returned (C17-j), KILL of a running hook (C17-b).  A START while the previous
+   command still runs is refused (C17-l).
 
    OS facts taken as given (named in props.d/C17.json): SIGKILL kills; a signal to the group reaches
    every member; kill(2) on a group that only holds zombies succeeds; a zombie still "exists" for
@@ -154,6 +155,16 @@ Definition stop_basic (s : bst) : bst * list out :=
   let '(s1, o) := ensure_killed s in
   if b_crashed s1 then (s1, o) else (s1, o ++ [OResp RStop true]).
 
+Definition reaped (c : child) : bool := match ch_st c with PReaped _ => true | _ => false end.
+
+(* the command of the last START has been started and not yet waited for (ProcessState == nil):
+   a further START of a basic task is refused (repair C17-l) *)
+Definition cmd_unreaped (s : bst) : bool :=
+  match b_cmd s with
+  | Some i => match nth_error (b_children s) i with Some c => negb (reaped c) | None => false end
+  | None => false
+  end.
+
 Definition start_child (b : beh) (s : bst) : bst :=
   mkB (b_launched s) (b_active s) (b_timer s) (Some (length (b_children s)))
       (b_children s ++ [mkChild PRun (bh_fork b)]) (b_pending s) (b_blocked s) (b_crashed s).
@@ -163,7 +174,9 @@ Definition breq (b : beh) (hook : bool) (s : bst) (r : req) : bst * list out :=
   else match r with
        | RTrigger => if hook then (start_child b s, [OResp RTrigger true])
                      else (s, [])                         (* "TriggerHook for non-hook task": no answer *)
-       | RStart => if hook then (s, [OResp RStart true]) else (start_child b s, [OResp RStart true])
+       | RStart => if hook then (s, [OResp RStart true])
+                   else if cmd_unreaped s then (s, [OResp RStart false])
+                   else (start_child b s, [OResp RStart true])
        | RStop => if hook then (s, [OResp RStop true]) else stop_basic s
        | RConf => (s, [OResp RConf true])
        | RReset => (s, [OResp RReset true])
